@@ -115,7 +115,9 @@ func LinkDDPFiles(options Options) ([]byte, error) {
 	args := append(make([]string, 0), "-o", options.OutputFile, "-O2", "-L"+ddppath.Lib)
 
 	// add all librarie-search-paths
-	for k := range link_objects {
+	// in a fixed order: the order of the search paths and of the libraries decides which definition of a symbol is linked
+	link_dirs := slices.Sorted(maps.Keys(link_objects))
+	for _, k := range link_dirs {
 		args = append(args, "-L"+k)
 	}
 
@@ -123,8 +125,8 @@ func LinkDDPFiles(options Options) ([]byte, error) {
 	args = append(args, input_files...)
 
 	// add external dependencies
-	for _, libs := range link_objects {
-		for _, lib := range libs {
+	for _, dir := range link_dirs {
+		for _, lib := range link_objects[dir] {
 			args = append(args, "-l:"+lib)
 		}
 	}
